@@ -710,7 +710,7 @@ func (s *c15Sim) odd() {
 	}
 	s.emit("tx %d %d 1 1 %d %s %s %s", t.id, asset, s.nonce(), strings.Join(inl, ","), strings.Join(outl, ","), refs)
 	s.emit("validate %d 0", t.id)
-	s.emit("admitv %d 0", t.id)
+	s.emit("persistv %d 0", t.id)
 	s.snapshotValidated([]int{t.id}, 1+r.Intn(c15Nodes))
 }
 
@@ -925,7 +925,7 @@ func (s *c15Sim) pendingRefs() {
 		s.applyFinal([]int{w.id}, nw, topow)
 	} else {
 		s.emit("validate %d 0", c.id)
-		s.emit("admitv %d 0", c.id)
+		s.emit("persistv %d 0", c.id)
 		s.snapshotValidated([]int{c.id}, 1+r.Intn(c15Nodes))
 		s.snapshot([]int{w.id}, nw, s.fits([]int{w.id}), 0)
 	}
